@@ -46,7 +46,22 @@ type SchemaOpts struct {
 var allMetrics = []string{models.DistanceEuclidean, models.DistanceCosine, models.DistanceDot, models.DistanceHamming, models.DistanceJaccard, models.DistanceHaversine}
 
 func genQuantizer(t *rapid.T, label string, metric string, dim int, productOK bool) *models.Quantizer {
-	if metric == models.DistanceHamming || metric == models.DistanceJaccard || metric == models.DistanceHaversine {
+	if metric == models.DistanceHaversine {
+		return nil
+	}
+	if metric == models.DistanceHamming || metric == models.DistanceJaccard {
+		// a bit metric thresholds at 0.5 and counts bits whatever the schema says about quantisers: a quantiser
+		// section beside it (legal, validated on its own) changes nothing, whichever bit metric it names
+		switch rapid.IntRange(0, 5).Draw(t, label+"-bitquant") {
+		case 0:
+			th := rapid.SampledFrom([]float32{0, 0.5, 0.75}).Draw(t, label+"-bth")
+			return &models.Quantizer{Type: models.QuantizerBinary, Binary: &models.BinaryQuantizerParamaters{
+				Threshold: &th, DistanceMetric: rapid.SampledFrom([]string{models.DistanceHamming, models.DistanceJaccard}).Draw(t, label+"-bbm")}}
+		case 1:
+			return &models.Quantizer{Type: models.QuantizerBinary, Binary: &models.BinaryQuantizerParamaters{
+				TriggerThreshold: rapid.IntRange(0, 12).Draw(t, label+"-btrig"),
+				DistanceMetric:   rapid.SampledFrom([]string{models.DistanceHamming, models.DistanceJaccard}).Draw(t, label+"-bbm2")}}
+		}
 		return nil
 	}
 	switch rapid.IntRange(0, 4).Draw(t, label+"-quant") {
